@@ -126,6 +126,7 @@ class Session(object):
             sw = rng.choice(list(itertools.product([0, 1], repeat=3)))
             self.do(33, [l, 1, 1, 1])
             self.do(33, [l] + list(sw))
+            self.do(46, [l])
         if depth >= 1:
             self.do(37, [1])
             self.do(37, [0])
